@@ -61,7 +61,7 @@ for sid, (prop, what, needs) in INFO.items():
         if os.path.exists(old):
             ran = json.load(open(old)).get('what_i_ran', {})
     try:
-        ran['repository_test_suite_with_change'] = open(f'/tmp/mt_{sid}.txt').read().strip()
+        ran['repository_test_suite_with_change'] = open(f'/tmp/mt_{sid}.txt').read().strip().splitlines()[-1]
     except Exception:
         old = os.path.join(d, 'meta.json')
         if os.path.exists(old):
